@@ -92,10 +92,29 @@ def gen_rich_spec(rng, sbml=False):
             "obj": obj, "dir": rng.choice(["max", "max", "min"]),
             "compartments": {"c": "cytosol", "e": "extracellular"} if rng.random() < 0.5 else {}}
     groups = []
-    if sbml and rng.random() < 0.6:
-        groups.append({"id": "g_1", "name": "a pathway", "kind": rng.choice(["collection", "classification", "partonomy"]),
-                       "members": [["r", x] for x in rng.sample(rids, rng.randint(1, nr))] + [["m", x] for x in rng.sample(mids, rng.randint(0, 2))]
-                       + [["g", x] for x in rng.sample(used, min(len(used), rng.randint(0, 2)))]})
+    if sbml:
+        for gid in rng.sample(["g_1", "grp.2-x", "Glycolysis / Gluconeogenesis", "9th"], rng.choice([0, 1, 1, 2])):
+            groups.append({"id": gid, "name": rng.choice(["a pathway", "", "Transport, extracellular"]),
+                           "kind": rng.choice(["collection", "classification", "partonomy"]),
+                           "members": [["r", x] for x in rng.sample(rids, rng.randint(0, nr))] + [["m", x] for x in rng.sample(mids, rng.randint(0, 2))]
+                           + [["g", x] for x in rng.sample(used, min(len(used), rng.randint(0, 2)))]})
+        # values the XML layer has to escape or that need all 15 digits
+        for o in mets + rxns:
+            if rng.random() < 0.15:
+                o["name"] = rng.choice(['a & b', 'x < y', '"quoted"', "5'-end", "α-ketoglutarate"])
+            if rng.random() < 0.15:
+                o["notes"] = rng.choice([{"k": "v: w"}, {"x": "a<b & c"}, {"k": 'q "x"'}, {"two words": "1 < 2"}])
+            if rng.random() < 0.15:
+                o["annotation"] = rng.choice([{"kegg.reaction": ["R00001"]}, {"my_db": "X1"}, {"inchi_key": "WQZGKKKJIJFFOK-GASJEMHNSA-N"},
+                                              {"bigg.metabolite": "glc__D", "sbo": "SBO:0000247"}])
+        for r in rxns:
+            if rng.random() < 0.15:
+                k = rng.choice(list(r["st"]))
+                r["st"][k] = num(rng.choice([1, -1]) * rng.choice([1 / 3, 0.1, 2.5e-4, 123456.789]))
+            if rng.random() < 0.1:
+                r["lb"], r["ub"] = rng.choice([("-1/3", "1/3"), ("1/7", "123456789/1000"), ("-1/10000000", "1/3")])
+        if rng.random() < 0.1:
+            spec["obj"] = {rng.choice(rids): "1/3"}
     spec["groups"] = groups
     return spec
 
